@@ -210,7 +210,7 @@ def r1_passes(rep, facts, rid='C17/R1'):
 
 def r5_formatters(rep, facts):
     R = rep.rule('C17/R5', 'the two post-processing formatters (toml::fmt::DocumentFormatter, toml_edit::ser::pretty::Pretty) agree: same overridden hooks, '
-                 'same promotion protocol, same decor clearing, same implicit-table rule, same array layout threshold', floor=6)
+                 'same promotion protocol, same decor clearing, same implicit-table rule, same array layout threshold', floor=4)
     ovs = {}
     for imp in facts.impls:
         if (imp.get('trait') or '').endswith('visit_mut::VisitMut'):
@@ -220,10 +220,17 @@ def r5_formatters(rep, facts):
         rep.notes.append(f'configuration {facts.config}: one of the formatters is not compiled; twin rule skipped.')
         return
     rep.check(R, 'hooks', set(ovs[a]) == set(ovs[b]), f'{sorted(ovs[a])}', f'DocumentFormatter overrides {sorted(ovs[a])}, Pretty overrides {sorted(ovs[b])}')
-    sa, sb = sm.promotion_summary(facts, ovs[a]['visit_item_mut']), sm.promotion_summary(facts, ovs[b]['visit_item_mut'])
-    for key in ('restores_after_recursion', 'sets_flag_from_node', 'recurses'):
-        rep.check(R, f'visit_item_mut|{key}', sa[key] == sb[key] is True, f'{sa[key]} / {sb[key]}', f'promotion protocol differs on `{key}`: DocumentFormatter {sa[key]}, Pretty {sb[key]}')
-    rep.check(R, 'visit_item_mut|guarded', all(g for _, g in sa['promotions']) and all(g for _, g in sb['promotions']), 'both guard the promotion', f'guards: {sa["promotions"]} / {sb["promotions"]}')
+    from .rules_c07 import promotion_model
+    from .den import Unanalysable as _Un, EvalPanic as _Ep
+    try:
+        ca, cb = promotion_model(facts, a), promotion_model(facts, b)
+        rep.check(R, 'visit_item_mut|promotion on the model table', not ca and not cb, 'both promote exactly what lies outside values',
+                  f'run over the model table, DocumentFormatter: {ca[:1] or "as expected"}, Pretty: {cb[:1] or "as expected"}')
+    except (_Un, _Ep, TypeError, KeyError, IndexError, AttributeError, ValueError):
+        sa, sb = sm.promotion_summary(facts, ovs[a]['visit_item_mut']), sm.promotion_summary(facts, ovs[b]['visit_item_mut'])
+        for key in ('restores_after_recursion', 'sets_flag_from_node', 'recurses'):
+            rep.check(R, f'visit_item_mut|{key}', sa[key] == sb[key] is True, f'{sa[key]} / {sb[key]}', f'promotion protocol differs on `{key}`: DocumentFormatter {sa[key]}, Pretty {sb[key]}')
+        rep.check(R, 'visit_item_mut|guarded', all(g for _, g in sa['promotions']) and all(g for _, g in sb['promotions']), 'both guard the promotion', f'guards: {sa["promotions"]} / {sb["promotions"]}')
 
     def summary(d):
         bb = facts.body(d)
